@@ -254,6 +254,18 @@ def junction_class(lv):
 
 # ------------------------------------------------------------------ real-code driver
 
+def cut_out_of_larger_mesh(ser, node_ids):
+    """The batch as a selection out of a larger mesh series (mesh[mask]): same rows and values, but the
+    MultiIndex keeps the unused node ids of the whole mesh in its levels."""
+    steps = ser.index.get_level_values("load_step").unique()
+    extra = [max(node_ids) + 3, min(node_ids) - 2 if min(node_ids) >= 2 else max(node_ids) + 9]
+    big_idx = pd.MultiIndex.from_product([steps, list(node_ids) + extra], names=["load_step", "node_id"])
+    big = pd.Series(0.0, index=big_idx)
+    big.loc[ser.index] = ser.to_numpy()
+    sel = big[big.index.get_level_values("node_id").isin(list(node_ids))]
+    return sel.loc[ser.index] if not sel.index.equals(ser.index) else sel
+
+
 def node_major(ser, node_ids):
     """The same (load_step, node_id) series with the rows grouped by node instead of by load step."""
     return pd.concat([ser[ser.index.get_level_values("node_id") == i] for i in node_ids])
@@ -304,7 +316,15 @@ def run_two_pass(loads, law, second=True, peek="none", ckpt="none"):
         first_rows = None
         if peek in ("between", "both"):
             rec.collective
-        if ckpt != "none":
+        if ckpt == "fork":
+            # both the original and its deep copy go on (the assessment code hands the first-pass detector
+            # to the user and continues on a copy): the copy is what the caller evaluates, the original runs first
+            twin = checkpoint(det, "deepcopy")
+            if second:
+                det.process_hcm_second(loads)
+            det = twin
+            rec = det.recorder
+        elif ckpt != "none":
             det = checkpoint(det, ckpt)
             rec = det.recorder
         if second:
@@ -365,7 +385,7 @@ def generate(prop, rng, tier):
               "twin": None,
               "container": rng.choice(["f64", "f64", "f64", "list", "i64", "i32", "i16", "series", "f32int", "negzero"]),
               "peek": rng.choice(["none", "none", "before", "between", "both"]),
-              "ckpt": rng.choice(["none", "none", "none", "deepcopy", "pickle"])}
+              "ckpt": rng.choice(["none", "none", "none", "deepcopy", "pickle", "fork"])}
         if rng.random() < 0.3:
             # J3 twin: interior-only refinement, compared per pass with the base
             tr["twin"] = refine(rng, lv, junction=False, density=rng.choice([0.3, 0.7]))
@@ -376,6 +396,7 @@ def generate(prop, rng, tier):
             ids = rng.sample([0, 1, 2, 5, 11, 12, 40], m)
             tr["batch"] = [[i, rng.choice([1.0, 2.0, 0.5, 4.0])] for i in ids]
             tr["row_order"] = rng.choice(["step", "step", "node"])
+            tr["subset_of_mesh"] = rng.random() < 0.4
         return tr
     return generate_c05(rng, tier)
 
@@ -420,7 +441,7 @@ def generate_c05(rng, tier):
           "mat": rng.randrange(len(MATERIALS)), "bins": rng.choice([20, 50, 100, 200]),
           "mode": rng.choice(["K1", "K1", "K2", "K2", "K3"]),
           "peek": rng.choice(["none", "none", "between", "both"]),
-          "ckpt": rng.choice(["none", "none", "deepcopy", "pickle"])}
+          "ckpt": rng.choice(["none", "none", "deepcopy", "pickle", "fork"])}
     edge = rng.random() < 0.4
     tr["max_factor"] = rng.choice([1.0, 1.0, 1.25, 2.0]) if edge else rng.choice([1.0137, 1.0731, 1.3391, 1.9173])
     if rng.random() < 0.22:
@@ -436,6 +457,7 @@ def generate_c05(rng, tier):
         tr["nodes"] = [[i, r] for i, r in zip(ids, ratios)]
         tr["shared_max"] = rng.random() < 0.35
         tr["row_order"] = rng.choice(["step", "step", "node"])
+        tr["subset_of_mesh"] = rng.random() < 0.4
         # K2 wants all loads off the class edges (see DESIGN 4.5 "known trap")
         f = 1.0137
         loads = [x * step for x in lv]
@@ -526,6 +548,9 @@ def exec_c04(trace, out, log):
         nodes = [(int(i), float(r)) for i, r in batch]
         idx = pd.MultiIndex.from_product([range(len(lv)), [i for i, _ in nodes]], names=["load_step", "node_id"])
         ser = pd.Series([x * step * r for x in lv for _, r in nodes], index=idx, dtype=np.float64)
+        if trace.get("subset_of_mesh"):
+            ser = cut_out_of_larger_mesh(ser, [i for i, _ in nodes])
+            out.count("probe:batch_cut_out_of_larger_mesh")
         if trace.get("row_order") == "node":
             ser = node_major(ser, [i for i, _ in nodes])
             out.count("probe:node_major_rows")
@@ -802,6 +827,9 @@ def exec_c05(trace, out, log):
     idx = pd.MultiIndex.from_product([range(n), [i for i, _ in nodes]], names=["load_step", "node_id"])
     vals = [lv[k] * step * r for k in range(n) for _, r in nodes]
     batch = pd.Series(vals, index=idx, dtype=np.float64)
+    if trace.get("subset_of_mesh"):
+        batch = cut_out_of_larger_mesh(batch, [i for i, _ in nodes])
+        out.count("probe:batch_cut_out_of_larger_mesh")
     if trace.get("row_order") == "node":
         batch = node_major(batch, [i for i, _ in nodes])
         out.count("probe:node_major_rows")
